@@ -547,7 +547,7 @@ Section C03.
                       end) us l ;;
               Ok (VTuple r)
           | VStr s => uk_str E P u s
-          | _ => match us with [] => Ok (VTuple []) | _ => Exn XTypeError end
+          | _ => r <- none_tail us ;; Ok (VTuple r)     (* only constant positions never index the value *)
           end
       | UDictComp ku vu =>
           match d with
@@ -636,7 +636,7 @@ Section C03.
                       end) ts l ;;
               Ok (VTuple r)
           | VStr s => ref_dec_str E P t s
-          | _ => match ts with [] => Ok (VTuple []) | _ => Exn XTypeError end
+          | _ => r <- none_tail_t ts ;; Ok (VTuple r)
           end
       | SDict kt vt =>
           match d with
@@ -703,7 +703,7 @@ Section C03.
                            | exact (uk_str_ref (STupleVar t') true s)
                            | exact (uk_str_ref (STupleFix ts) true s) ] ].
     (* fixed tuple given a non-sequence *)
-    all: try solve [ rewrite uk_unfold, ref_dec_unfold; destruct ts; reflexivity ].
+    all: try solve [ rewrite uk_unfold, ref_dec_unfold; rewrite (none_tail_cu ts); reflexivity ].
     (* homogeneous containers over list-like inputs *)
     all: try solve [ rewrite uk_unfold, ref_dec_unfold;
                      rewrite (mapM_ext_in _ (fun x => ref_dec E P x t'));
